@@ -448,8 +448,9 @@ Qed.
 (* ------------------------------------------------------------------ the bridge *)
 Lemma init_ok_model : forall a ct, init_ok a ct (snd (new_session ct a)) = true.
 Proof.
-  intros a ct. unfold new_session. destruct (within ct a) eqn:Ew; [|reflexivity].
-  destruct (handlers a) as [|h0 hs] eqn:Eh; [reflexivity|]. cbn [snd init_ok]. rewrite Ew.
+  intros a ct. unfold new_session. destruct (within ct a) eqn:Ew; [|cbn; rewrite Ew; reflexivity].
+  destruct (handlers a) as [|h0 hs] eqn:Eh; [cbn; rewrite Ew, offered_eq, Eh; reflexivity|].
+  cbn [snd init_ok]. rewrite Ew.
   rewrite <- Eh, <- offered_eq. rewrite list_eqb_refl by apply mech_eqb_refl. cbn [andb].
   assert (Hn : (match offered_spec a with [] => true | _ => false end) = false).
   { rewrite offered_eq, Eh. reflexivity. }
